@@ -478,6 +478,12 @@ def std_transfer(I, fr, t, c, pth):
                 fr.storev(dest, Int(len(v.items)))
                 return True
             return False
+        if name == 'is_empty' and len(args) == 1:
+            v = seq_of(I, fr, args[0])
+            if isinstance(v, Agg):
+                fr.storev(dest, Int(int(not v.items), 1))
+                return True
+            return False
         if name in ('deref', 'deref_mut', 'as_slice', 'as_mut_slice', 'as_ref', 'as_mut', 'borrow', 'borrow_mut'):
             rp = ref_of(fr, args[0])
             if rp is not None:
